@@ -7,7 +7,7 @@ from . import npmodel as npm, units, sym
 from .sym import (Sc, Unsupported, to_z3, wrap, ite, band, bor, bnot, compare, arith, implies,
                   fresh_int, fresh_real, fresh_bool, fresh_name, Forall, smin, smax, mathfn)
 from .values import (ArrRef, ObjRef, ListRef, DictRef, PureArr, Masked, Quantity, Unit, Opaque,
-                     ArrCell, ListCell, DictCell, is_array, uf_array)
+                     ArrCell, ObjCell, ListCell, DictCell, is_array, uf_array)
 from .npmodel import Raised
 
 USED = set()
@@ -558,6 +558,8 @@ def b_len(interp, st, fr, args, kw):
         return x.length
     if isinstance(x, TableVal):
         return x.nrows
+    if isinstance(x, ObjRef) and st.heap[x.addr].cls == '<table>':
+        return st.heap[x.addr].attrs['@n']
     if isinstance(x, Quantity):
         x = x.value
     if isinstance(x, Masked):
@@ -880,6 +882,8 @@ def call_method(interp, st, fr, obj, name, args, kw):
     from .interp import SymSeq, TableVal
     if isinstance(obj, Quantity):
         return quantity_method(interp, st, fr, obj, name, args, kw)
+    if isinstance(obj, Sc) and obj.is_int and name == 'strip' and not args:
+        return strip_code(obj)          # a name code: the code of the stripped name
     if isinstance(obj, Unit):
         if name == 'is_equivalent':
             return units.is_equivalent(obj, args[0])
@@ -1031,3 +1035,134 @@ def array_method(interp, st, fr, a, name, args, kw):
     if name == 'sort':
         raise Unsupported("in-place sort")
     raise Unsupported("ndarray.%s" % name)
+
+
+# --- numpy.char ------------------------------------------------------------------------------
+# Names are abstract codes (integers); stripping is a named function of the code (STRIP(code) is the
+# code of the stripped string), idempotent.
+STRIP = z3.Function('STRIP', z3.IntSort(), z3.IntSort())
+
+
+def strip_code(x):
+    return Sc(STRIP(to_z3(x, 'int')))
+
+
+def strip_axioms():
+    k = z3.Int('k!strip')
+    return [z3.ForAll([k], STRIP(STRIP(k)) == STRIP(k), patterns=[STRIP(STRIP(k))])]
+
+
+@model('numpy.char.strip')
+def np_char_strip(interp, st, fr, args, kw):
+    USED.add('numpy.char.strip')
+    a = _arr(interp, st, args[0])
+    shape, fn, kind = npm.info(st, a)
+    return PureArr(shape, lambda idx: strip_code(fn(idx)), kind)
+
+
+# --- astropy Table (rows as a unit) -------------------------------------------------------------
+# A table is a heap record '<table>' with attrs: '@cols' (dict name -> array value), '@n' (row count),
+# '@origin' (row -> row of the ROOT table it was taken from, a ghost map), '@root' (an id), 'columns',
+# 'dtype'.  Dependency contract (assumed): boolean selection keeps the selected rows in order, integer
+# selection gathers whole rows; both raise IndexError instead of returning rows that do not exist.
+
+_TABLE_ROOT = [0]
+
+
+def table_new(st, cols, nrows, origin=None, root=None):
+    if root is None:
+        _TABLE_ROOT[0] += 1
+        root = _TABLE_ROOT[0]
+    cols = dict((k, st.box(v)) for k, v in cols.items())
+    names = tuple(cols)
+    dt = st.alloc_obj('<dtype>', {'names': names})
+    return st.alloc_obj('<table>', {'@cols': cols, '@n': nrows, '@origin': origin or (lambda k: k), '@root': root,
+                                    'columns': names, 'colnames': names, 'dtype': dt})
+
+
+def is_table(st, v):
+    return isinstance(v, ObjRef) and st.heap[v.addr].cls == '<table>'
+
+
+def table_getitem(interp, st, t, key):
+    cell = st.heap[t.addr]
+    cols, n, origin = cell.attrs['@cols'], cell.attrs['@n'], cell.attrs['@origin']
+    if isinstance(key, str):
+        if key not in cols:
+            raise Raised('KeyError', key)
+        return cols[key]
+    if not is_array(key):
+        raise Unsupported("table subscript %r" % (key,))
+    kshape, kfn, kind = npm.info(st, key)
+    if len(kshape) != 1:
+        raise Unsupported("table row selection with an n-d key")
+    if kind == 'bool':
+        npm.same_dim(st, kshape[0], n)
+        nm = fresh_name('sel')
+        NTH = z3.Function(nm + '_nth', z3.IntSort(), z3.IntSort())
+        RANK = z3.Function(nm + '_rank', z3.IntSort(), z3.IntSort())
+        cnt = Sc(z3.Int(nm + '_count'))
+        nth = lambda k: Sc(NTH(to_z3(k, 'int')))
+        rank = lambda i: Sc(RANK(to_z3(i, 'int')))
+        st.assume([compare('<=', 0, cnt), compare('<=', cnt, n)])
+        st.assume(Forall([cnt], lambda k: band(band(compare('<=', 0, nth(k)), compare('<', nth(k), n)), band(kfn((nth(k),)), compare('==', rank(nth(k)), k))), name='select.nth'))
+        st.assume(Forall([n], lambda i: implies(kfn((i,)), band(band(compare('<=', 0, rank(i)), compare('<', rank(i), cnt)), compare('==', nth(rank(i)), i))), name='select.rank'))
+        st.assume(Forall([cnt, cnt], lambda k, l: implies(compare('<', k, l), compare('<', nth(k), nth(l))), name='select.order'))
+        new_cols = {}
+        for name, col in cols.items():
+            cshape, cfn, ckind = npm.info(st, col)
+            new_cols[name] = PureArr((cnt,) + tuple(cshape[1:]), (lambda cfn: lambda idx: cfn((nth(idx[0]),) + tuple(idx[1:])))(cfn), ckind)
+        return table_new(st, new_cols, cnt, (lambda origin: lambda k: origin(nth(k)))(origin), cell.attrs['@root'])
+    # integer gather: numpy raises IndexError for a row that does not exist
+    m = kshape[0]
+    rs = st.fork()
+    rs.assume_pc(Sc(fresh_bool('row_out_of_range')))
+    rs.status = 'raise'
+    rs.exc = ('IndexError', 'index out of bounds for the table')
+    rs.path += 'I'
+    interp._pending_forks.append(rs)
+    st.assume(Forall([m], lambda k: band(compare('<=', 0, kfn((k,))), compare('<', kfn((k,)), n)), name='gather.in_range'))
+    new_cols = {}
+    for name, col in cols.items():
+        cshape, cfn, ckind = npm.info(st, col)
+        new_cols[name] = PureArr((m,) + tuple(cshape[1:]), (lambda cfn: lambda idx: cfn((kfn((idx[0],)),) + tuple(idx[1:])))(cfn), ckind)
+    return table_new(st, new_cols, m, (lambda origin: lambda k: origin(kfn((k,))))(origin), cell.attrs['@root'])
+
+
+def table_setitem(interp, st, t, key, val):
+    if not isinstance(key, str):
+        raise Unsupported("table store with key %r" % (key,))
+    cell = st.heap[t.addr]
+    cols = dict(cell.attrs['@cols'])
+    val = _arr(interp, st, val)
+    if is_array(val):
+        npm.same_dim(st, npm.shape_of(st, val)[0], cell.attrs['@n'])
+    if isinstance(val, ArrRef):
+        # the table stores its own copy of the column
+        shape, fn, kind = npm.info(st, val)
+        val = PureArr(shape, fn, kind)
+    cols[key] = st.box(val)
+    attrs = dict(cell.attrs)
+    attrs['@cols'] = cols
+    attrs['columns'] = attrs['colnames'] = tuple(cols)
+    attrs['dtype'] = st.alloc_obj('<dtype>', {'names': tuple(cols)})
+    st.heap[t.addr] = ObjCell('<table>', attrs)
+
+
+@model('numpy.isin')
+def np_isin(interp, st, fr, args, kw):
+    """isin(a, b)[i]  <=>  exists k: b[k] == a[i]   (named predicate with a witness function)."""
+    USED.add('numpy.isin')
+    a, b = _arr(interp, st, args[0]), _arr(interp, st, args[1])
+    ashape, afn, _ = npm.info(st, a)
+    bshape, bfn, _ = npm.info(st, b)
+    if len(ashape) != 1 or len(bshape) != 1:
+        raise Unsupported("isin of n-d arrays")
+    nm = fresh_name('isin')
+    IN = z3.Function(nm, z3.IntSort(), z3.BoolSort())
+    WIT = z3.Function(nm + '_wit', z3.IntSort(), z3.IntSort())
+    isin = lambda i: Sc(IN(to_z3(i, 'int')))
+    wit = lambda i: Sc(WIT(to_z3(i, 'int')))
+    st.assume(Forall([ashape[0], bshape[0]], lambda i, k: implies(compare('==', bfn((k,)), afn((i,))), isin(i)), name='isin.intro'))
+    st.assume(Forall([ashape[0]], lambda i: implies(isin(i), band(band(compare('<=', 0, wit(i)), compare('<', wit(i), bshape[0])), compare('==', bfn((wit(i),)), afn((i,))))), name='isin.elim'))
+    return PureArr((ashape[0],), lambda idx: isin(idx[0]), 'bool')
